@@ -1015,7 +1015,9 @@ class UTPM(Ring, RawAlgorithmsMixIn):
     @classmethod
     def imag(cls, x):
         """ UTPM equivalent to numpy.imag """
-        return cls(x.data.imag)
+        # a copy and not a view of x.data: the adjoint of a view is accumulated with the sign
+        # of the view, but the adjoint of the imaginary part enters xbar with the opposite sign
+        return cls(x.data.imag.copy())
 
     @classmethod
     def pb_imag(cls, ybar, x, y, out=None):
@@ -1025,7 +1027,7 @@ class UTPM(Ring, RawAlgorithmsMixIn):
 
         else:
             xbar, = out
-        xbar.data.imag = -ybar.data
+        xbar.data.imag -= ybar.data
 
 
     @classmethod
